@@ -183,9 +183,9 @@ def names(mol2_safe=False):
     if mol2_safe:
         return st.one_of(
             st.text("ABCDEFGHIJKLMNOPQRSTUVWXYZabcdefghijklmnopqrstuvwxyz0123456789_-+.()[] #@<>,:;!?{}/\\|=%&$~^'\"*", min_size=1, max_size=12).map(str.strip).filter(lambda s: len(s) > 0),
-            st.sampled_from(["ligand #7 (batch A)", "#1", "# Produced", "@<TRIPOS>MOLECULE", "@<TRIPOS>ATOM", "****", "12 3", "a  b", "α_pinene_2Å", "naïve-é", "名前"]),
+            st.sampled_from(["ligand #7 (batch A)", "#1", "# Produced", "@<TRIPOS>MOLECULE", "@<TRIPOS>ATOM", "****", "12 3", "a  b", "α_pinene_2Å", "naïve-é", "名前", "Au-PPh3", "ligand 7 (au)", "[Au(CN)2]-", "bohr", "coords in a.u.", "pm 3", "nm", "Angstrom", "fm"]),
         )
-    return st.one_of(st.none(), st.just(""), st.text(max_size=10), st.sampled_from(["mol", "a b", "x_1"]))
+    return st.one_of(st.none(), st.just(""), st.text(max_size=10), st.sampled_from(["mol", "a b", "x_1", "Au-PPh3", "ligand 7 (au)", "bohr", "coords in a.u.", "nm", "pm 3", "Angstrom"]))
 
 
 @st.composite
